@@ -2,7 +2,7 @@
 # tools/confirm_seed_compile.sh <ID> <worktree>  -- for type-system holes: the demo (examples/seed_demo.rs) must compile
 # with the change and be rejected without it; the repo suite must pass with the change.
 ID="$1"; WT="$2"; ROOT="$(cd "$(dirname "$0")/.." && pwd)"
-OUT="$ROOT/seeded/$ID"; mkdir -p "$OUT"
+OUT="$ROOT/seeded/${SEED_NAME:-$ID}"; mkdir -p "$OUT"
 cd "$WT" || exit 2
 git diff -- src > "$OUT/patch.diff"
 cp examples/seed_demo.rs "$OUT/seed_demo.rs"; cp SEED_NOTES.md "$OUT/SEED_NOTES.md" 2>/dev/null
